@@ -18,7 +18,8 @@ ANCHORS = ['pycaption.srt:SRTReader.read', 'pycaption.srt:SRTWriter.write', 'pyc
            'pycaption.microdvd:MicroDVDReader.read', 'pycaption.microdvd:MicroDVDWriter.write']
 THOROUGH_SCALE = 2.5        # random budgets of the thorough tier are multiplied by this
 REQUIRE = {'hops': 2000, 'chains_len2': 300, 'chains_longer': 50, 'second_passes': 300, 'multi_language_chains': 20,
-           'cues_compared': 5000, 'chains_with_microdvd': 100, 'chains_with_sami': 100}
+           'cues_compared': 5000, 'chains_with_microdvd': 100, 'chains_with_sami': 100,
+           'chains_on_a_set_with_a_repeated_text': 100}
 FORMATS = ['srt', 'webvtt', 'dfxp', 'sami', 'microdvd']
 RW = {'srt': ('SRTReader', 'SRTWriter'), 'webvtt': ('WebVTTReader', 'WebVTTWriter'),
       'dfxp': ('DFXPReader', 'DFXPWriter'), 'sami': ('SAMIReader', 'SAMIWriter'),
@@ -56,6 +57,10 @@ def gen_set(rng, tag, grid, nlang, excl, zero_frame=False, frame1_numeric=False)
                 j = rng.randrange(i, len(nodes) + 1)
                 nodes = nodes[:i] + [['s', True, style]] + nodes[i:j] + [['s', False, style]] + nodes[j:]
             caps.append({'start': a, 'end': b, 'nodes': nodes, 'style': None, 'layout': None})
+        if len(caps) >= 2 and not frame1_numeric and rng.random() < 0.3:
+            # the same text twice in one language (texts are otherwise uniquely tagged)
+            i = rng.randrange(1, len(caps))
+            caps[i]['nodes'] = [list(n) for n in caps[rng.randrange(0, i)]['nodes']]
         spec['langs'].append({'lang': lang, 'layout': None, 'captions': caps})
     return spec
 
@@ -168,6 +173,8 @@ def check(case, ctx):
         ctx.count('chains_with_microdvd')
     if 'sami' in chain:
         ctx.count('chains_with_sami')
+    if any(len({repr(c['nodes']) for c in l['captions']}) < len(l['captions']) for l in spec['langs']):
+        ctx.count('chains_on_a_set_with_a_repeated_text')
     ctx.count('cues_compared', sum(len(c) for _, c in src) * len(chain) * 2)
     end1, f, res, sami_seen = run_chain(cs, chain, ctx, src, by_code)
     if f:
